@@ -59,6 +59,16 @@ def next_op(rng, runner, weights=None, allow=None, reuse=0.35) -> dict:
         else:
             bad = good + b'?' if rng.random() < 0.5 else good[:-1] + b'xy'
         c = runner.grow_pool(bad)
+        if rng.random() < 0.4:
+            # the content comes back through the direct-to-pack path (any options): a correct copy must be in place afterwards
+            cs = [k] + [pick_content(rng, runner, rc, reuse) for _ in range(rng.choice([0, 0, 1, 2]))]
+            rng.shuffle(cs)
+            return [{'op': 'damage', 'on': on, 'k': k, 'c': c},
+                    {'op': 'addPacked', 'on': on, 'cs': cs, 'compress': rng.random() < 0.5, 'no_holes': rng.random() < 0.7,
+                     'read_twice': rng.random() < 0.5, 'via': rng.choice(['bytes', 'streams', 'short']), 'short': rng.choice([1, 5, 64])},
+                    # (the damaged loose copy of the now packed object is then cleaned away: the model of pack_all_loose
+                    #  is stated for containers whose loose files are intact)
+                    {'op': 'clean', 'on': on, 'vacuum': False}]
         return [{'op': 'damage', 'on': on, 'k': k, 'c': c},
                 {'op': 'addLoose', 'on': on, 'c': k, 'via': rng.choice(['bytes', 'stream', 'short']), 'short': rng.choice([1, 7, 5000])}]
     if kind == 'plantDup':
